@@ -38,7 +38,12 @@ func init() {
 			"		if !pa.conf.AlwaysAvailable {\n			pa.setNotAvailable()\n		}\n		req.Res <- defs.PathAddPublisherRes{Err: err}", "		req.Res <- defs.PathAddPublisherRes{Err: err}", "C16.rollback"},
 		Mutant{"C16", "publish-to-static-source-path", "internal/core/path.go",
 			"	if pa.conf.Source != \"publisher\" {\n		req.Res <- defs.PathAddPublisherRes{\n			Err: fmt.Errorf(\"can't publish to path '%s' since 'source' is not 'publisher'\", pa.name),\n		}\n		return\n	}\n", "	_ = fmt.Sprint\n", "C16.add_publisher"},
+		Mutant{"C16", "removed-publisher-stays-current", "internal/core/path.go",
+			"		err := pa.stream.StartOfflineSubStream()\n		if err != nil {\n			panic(\"should not happen\")\n		}\n	}\n	pa.source = nil", "		if pa.conf.SourceOnDemand {\n			err := pa.stream.StartOfflineSubStream()\n			if err != nil {\n				panic(\"should not happen\")\n			}\n		}\n	}\n	pa.source = nil", "C16.remove_publisher.cut_off"},
 		// C18
+		Mutant{"C18", "attached-reader-refused-when-full", "internal/core/path.go",
+			"	if _, ok := pa.readers[req.Author]; ok {\n		req.Res <- defs.PathAddReaderRes{Stream: pa.stream}\n		return\n	}\n\n	if pa.conf.MaxReaders != 0 && len(pa.readers) >= pa.conf.MaxReaders {\n		req.Res <- defs.PathAddReaderRes{Err: fmt.Errorf(\"maximum reader count reached\")}\n		return\n	}\n",
+			"	if pa.conf.MaxReaders != 0 && len(pa.readers) >= pa.conf.MaxReaders {\n		req.Res <- defs.PathAddReaderRes{Err: fmt.Errorf(\"maximum reader count reached\")}\n		return\n	}\n\n	if _, ok := pa.readers[req.Author]; ok {\n		req.Res <- defs.PathAddReaderRes{Stream: pa.stream}\n		return\n	}\n", "C18.no_double_count"},
 		Mutant{"C18", "limit-test-dropped", "internal/core/path.go",
 			"	if pa.conf.MaxReaders != 0 && len(pa.readers) >= pa.conf.MaxReaders {\n		req.Res <- defs.PathAddReaderRes{Err: fmt.Errorf(\"maximum reader count reached\")}\n		return\n	}\n", "	_ = fmt.Sprint\n", "C18.limit"},
 		Mutant{"C18", "limit-off-by-one", "internal/core/path.go",
@@ -215,6 +220,11 @@ func runC16(c *Ctx) {
 		}
 		c.Check("C16.remove_publisher", fnName(er)+": clears path.source", ok, p.Pos(er.Pos()), "")
 		c.MustPrecede(p, er, "C16.remove_publisher", "return", "setNotAvailable or setOffline (readers are cut off / stream goes offline)", anyReturn, callTo("(*core.path).setNotAvailable", "(*core.path).setOffline"))
+		// the removed publisher's sub stream stops being the current one on EVERY path:
+		// either the stream is torn down, or the offline sub stream takes over
+		// (Stream.subStream is replaced, so SubStream.WriteUnit of the old publisher is a no-op)
+		c.MustPrecede(p, er, "C16.remove_publisher.cut_off", "return", "setNotAvailable() or stream.StartOfflineSubStream() (the removed publisher's sub stream is no longer current)", anyReturn,
+			callTo("(*core.path).setNotAvailable", "(*stream.Stream).StartOfflineSubStream"))
 	}
 	if rp := pathFn(c, p, "doRemovePublisher"); rp != nil {
 		c.MustPass(p, rp, "C16.remove_publisher", "executeRemovePublisher", callTo("(*core.path).executeRemovePublisher"), T("($0.source == $1.Author)"))
@@ -305,6 +315,13 @@ func runC18(c *Ctx) {
 		ins := func(i ssa.Instruction) bool { _, ok := i.(*ssa.MapUpdate); return ok }
 		c.MustPass(p, arp, "C18.no_double_count", "insert into readers", ins, F("$0.readers[$1.Author]#1"))
 		c.MustPass(p, arp, "C18.limit", "insert into readers", ins, T("($0.conf.MaxReaders == 0)"), T("(len($0.readers) < $0.conf.MaxReaders)"))
+		// an author that is already attached is not counted a second time: it is
+		// never refused (the limit error is reached only with the author absent)
+		// and gets the stream back
+		if countTargets(arp, isErrReply) > 0 {
+			c.MustPass(p, arp, "C18.no_double_count", "error reply (limit reached)", isErrReply, F("$0.readers[$1.Author]#1"))
+		}
+		c.MustPass(p, arp, "C18.no_double_count", "return", anyReturn, T("$0.readers[$1.Author]#1"), F("$0.readers[$1.Author]#1"))
 		eachInstr(arp, func(i ssa.Instruction) {
 			if mu, ok := i.(*ssa.MapUpdate); ok {
 				c.Check("C18.no_double_count", fnName(arp)+": the inserted key is the request's author", desc(mu.Map) == "$0.readers" && desc(mu.Key) == "$1.Author", p.Pos(posOf(i, arp)), "")
